@@ -15,3 +15,20 @@ pub assume_specification<'a, T, A: std::alloc::Allocator>[ <&'a mut Vec<T, A> as
         mut_ref_future(v)@ == Seq::new(r.remaining().len(), |j: int| mut_ref_future(r.remaining()[j])),
         mut_ref_current(v)@ == Seq::new(r.remaining().len(), |j: int| mut_ref_current(r.remaining()[j])),
 ;
+
+// A-VEC-RETAIN  `Vec::retain(f)` with a predicate closure that decides by the spec predicate p keeps exactly the
+// elements satisfying p, in order (std documentation of Vec::retain).
+pub assume_specification<T, A: std::alloc::Allocator, F: FnMut(&T) -> bool>[ Vec::<T, A>::retain ](v: &mut Vec<T, A>, f: F)
+    requires
+        forall|x: &T| #[trigger] f.requires((x,)),
+    ensures
+        final(v)@.len() <= old(v)@.len(),
+        forall|p: spec_fn(T) -> bool| (forall|x: &T, b: bool| #[trigger] f.ensures((x,), b) ==> b == p(*x))
+            ==> final(v)@ == #[trigger] old(v)@.filter(p),
+;
+
+// A-TOOWNED  `x.to_owned()` for a Clone type is `x.clone()` (std blanket impl `impl<T: Clone> ToOwned for T`)
+pub assume_specification<T: Clone>[ <T as std::borrow::ToOwned>::to_owned ](s: &T) -> (r: T)
+    ensures
+        cloned::<T>(*s, r),
+;
